@@ -31,7 +31,7 @@ func pick(r *rand.Rand, class string) string {
 	}
 	p := stringPool[class]
 	s := p[r.Intn(len(p))]
-	if class == "long" && r.Intn(3) != 0 {
+	if class == "long" && r.Intn(12) != 0 {
 		s = s[:1+r.Intn(300)] // keep most of them short: speed
 	}
 	if r.Intn(3) == 0 && len(s) < 1000 {
